@@ -1218,7 +1218,15 @@ jcBinOpPrint(JavaCodePContext ctxt, JavaCode code)
 
 	jc0PrintWithParens(ctxt, thisClss, lhs);
 	jcoPContextWrite(ctxt, thisClss->txt);
-	jc0PrintWithParens(ctxt, thisClss, rhs);
+	/* Binary operators associate to the left: a right operand of the
+	 * same precedence, as in a - (b + c), keeps its parentheses. */
+	if (jcoClass(rhs)->prec != 0 && thisClss->prec >= jcoClass(rhs)->prec) {
+		jcoPContextWrite(ctxt, "(");
+		jcoWrite(ctxt, rhs);
+		jcoPContextWrite(ctxt, ")");
+	}
+	else
+		jc0PrintWithParens(ctxt, thisClss, rhs);
 }
 
 local void
